@@ -275,6 +275,13 @@ func (c03) Generate(idx int, r *core.Rand, tier string) core.Script {
 		return s
 	}
 	s.Fields = c03Authentic(s.Entry, w)
+	if w.Chance(1, 25) { // line noise: every field replaced by arbitrary bytes of arbitrary length
+		for _, k := range c03Fields(s.Entry) {
+			s.Fields[k] = hx(w.Bytes(w.PickInt(0, 1, 31, 32, 32, 32, 33, 64, w.Intn(70))))
+		}
+		s.Byz = "noise"
+		return s
+	}
 	if w.Chance(1, 3) { // earlier traffic through the same receive buffers
 		for i := w.Range(1, 3); i > 0; i-- {
 			b := c03Authentic(s.Entry, w)
